@@ -100,16 +100,19 @@ func isStoreTo(in ssa.Instruction, f *types.Var) (*ssa.Store, bool) {
 	return st, true
 }
 
-func isBuiltinCall(in ssa.Instruction, name string) (*ssa.Call, bool) {
-	c, ok := in.(*ssa.Call)
+// builtinCall is a call/defer/go of a builtin; Call is its CallCommon.
+type builtinCall struct{ Call *ssa.CallCommon }
+
+func isBuiltinCall(in ssa.Instruction, name string) (*builtinCall, bool) {
+	c, ok := in.(ssa.CallInstruction)
 	if !ok {
 		return nil, false
 	}
-	b, ok := c.Call.Value.(*ssa.Builtin)
+	b, ok := c.Common().Value.(*ssa.Builtin)
 	if !ok || b.Name() != name {
 		return nil, false
 	}
-	return c, true
+	return &builtinCall{c.Common()}, true
 }
 
 func runTrace(p *Prog, root *ssa.Function, sp *Spec) *Tracer {
